@@ -224,7 +224,8 @@ class ArtimTask(Task):
 
 def tasks(tier):
     from contracts.C27 import SendTask
-    return [ProcessPrimitiveTask(), ProducersScan(), ClosureTask(), ArtimTask(), SendTask()]
+    from contracts.dul_reactor import DulReactorTask
+    return [ProcessPrimitiveTask(), ProducersScan(), ClosureTask(), ArtimTask(), SendTask(), DulReactorTask()]
 
 
 def replay(rec):
